@@ -145,6 +145,11 @@ def run_case(ctx, rep, p, q, vars1, vars2, model, kinds=("?", "?"), start=None, 
         rep.agree()
     else:
         rep.tie("combine's output layout (file, offset per box) differs from the model's", case)
+    why = writers.global_header_theorem_applies(out, leanio)
+    if why:
+        rep.tie(f"global header of combine's output: {why} (whose parse-after-render law is proved)", case)
+    else:
+        rep.agree(); rep.count("header-theorem-applies")
 
 
 def mismatches(rng, p, q):
